@@ -18,8 +18,22 @@ fn pattern(kind: u8, len: usize) -> Vec<u8> {
     }
 }
 
+thread_local! {
+    /// the device numbers (flash words, EEPROM bytes, RAM bytes) the next results carry; None = no device selected
+    static DEVICE: std::cell::Cell<Option<(u32, u32, u32)>> = std::cell::Cell::new(None);
+}
+
 fn built(code: Vec<u8>, eeprom: Vec<u8>) -> Built {
-    Built { code, eeprom, flash_size: 4_194_304, eeprom_size: 65536, ram_size: 8_388_608, ram_filling: 0, messages: vec![] }
+    let (flash_size, eeprom_size, ram_size) = DEVICE.with(|d| d.get()).unwrap_or((4_194_304, 65536, 8_388_608));
+    Built { code, eeprom, flash_size, eeprom_size, ram_size, ram_filling: 0, messages: vec![] }
+}
+
+/// `check_one_pre` for a result that carries the numbers of a device row
+pub fn check_one_dev(dir: &std::path::Path, id: usize, writer_code: bool, len: usize, pat: u8, other_len: usize, dev: (u32, u32, u32)) -> Option<(String, String)> {
+    DEVICE.with(|d| d.set(Some(dev)));
+    let r = check_one_pre(dir, id, writer_code, len, pat, other_len, 0);
+    DEVICE.with(|d| d.set(None));
+    r
 }
 
 /// (kind, detail) of a violation, or None when the written file reproduces the image exactly
@@ -119,6 +133,44 @@ pub fn run(tier: Tier) -> i32 {
     }
     let evals = AtomicU64::new(0);
     let bytes_checked = AtomicU64::new(0);
+    // results that carry the numbers of each row of the device table (the writers are handed the
+    // whole result): empty images, small ones, the 64 KiB boundaries the device can hold, a full
+    // flash / a full EEPROM
+    let n_dev = AtomicU64::new(0);
+    {
+        let mut dw: Vec<(String, (u32, u32, u32), bool, usize, usize)> = vec![];
+        for d in sut::devices() {
+            let fb = d.flash_words as usize * 2;
+            let es = d.eeprom_size as usize;
+            let mut cl: Vec<usize> = vec![0, 2, 600, 65534, 65536, 65538, 65552, 131072, 131074, fb.saturating_sub(2), fb].into_iter().filter(|l| *l <= fb).collect();
+            cl.sort();
+            cl.dedup();
+            let mut el: Vec<usize> = vec![0, 1, 17, es.saturating_sub(1), es].into_iter().filter(|l| *l <= es).collect();
+            el.sort();
+            el.dedup();
+            let dev = (d.flash_words, d.eeprom_size, d.ram_size);
+            for l in cl {
+                dw.push((d.name.clone(), dev, true, l, el[el.len() - 1].min(3)));
+            }
+            for l in el {
+                dw.push((d.name.clone(), dev, false, l, 2.min(fb)));
+            }
+        }
+        dw.par_iter().enumerate().for_each(|(i, (name, dev, writer_code, len, other))| {
+            evals.fetch_add(1, Ordering::Relaxed);
+            n_dev.fetch_add(1, Ordering::Relaxed);
+            bytes_checked.fetch_add(*len as u64, Ordering::Relaxed);
+            if let Some((kind, detail)) = check_one_dev(&scratch.path, 9_000_000 + i, *writer_code, *len, 1, *other, *dev) {
+                let w = if *writer_code { "code" } else { "eeprom" };
+                let class = if *len == 0 { "empty".to_string() } else if *len > 65536 { "beyond-64K".to_string() } else { "within-64K".to_string() };
+                rep.violation(
+                    &format!("C07/{}/writer={}/device-numbers={}w-{}b/lengths={}", kind, w, dev.0, dev.1, class),
+                    || format!("write_{}_hex of a {}-byte image in a result that carries the numbers of {} (flash {} words, EEPROM {} bytes): {}", w, len, name, dev.0, dev.1, detail),
+                    || json!({"kind": "hex", "writer": w, "len": len, "pattern": 1, "other_len": other, "device_numbers": [dev.0, dev.1, dev.2], "observed": detail}),
+                );
+            }
+        });
+    }
     work.par_iter().enumerate().for_each(|(id, (writer_code, len, pat, other, class))| {
         evals.fetch_add(1, Ordering::Relaxed);
         bytes_checked.fetch_add(*len as u64, Ordering::Relaxed);
@@ -245,6 +297,7 @@ pub fn run(tier: Tier) -> i32 {
     rep.assume("beyond the largest flash in the device table only selected boundaries are visited (the switch to linear addressing at 1 MiB; thorough: up to the default device's 8 MiB): images 'the assembler can produce' without a device");
     let coverage = cov(json!({
         "evaluations": evals.load(Ordering::Relaxed),
+        "results_with_the_numbers_of_a_device_row": n_dev.load(Ordering::Relaxed),
         "distinct_nontrivial": distinct_lengths.len() - 1,
         "rule": "every image length 0..600 and every length within +-17 of k*64KiB (quick k in {1,2,kmax}, thorough k = 1..kmax, kmax = largest flash / 64 KiB) up to the largest flash in the device table; contents = position-hash pattern (a misplaced byte is seen), all-00, all-FF; both writers, the other image empty and non-empty (3 bytes; for 8 lengths also 7 sizes from 1 byte to beyond 1 MiB); each written file is decoded by the harness's strict reader and compared with the image address by address. distinct_nontrivial = distinct non-zero image lengths",
         "exhaustive": true,
@@ -338,6 +391,11 @@ pub fn replay(v: &serde_json::Value) -> i32 {
     println!("write_{}_hex of a {}-byte image (pattern {}, other image {} bytes)", if writer_code { "code" } else { "eeprom" }, len, pat, other);
     println!("recorded : {}", v["observed"]);
     let pre = v["pre_existing"].as_u64().unwrap_or(0) as u8;
+    if let Some(a) = v["device_numbers"].as_array() {
+        let n = |i: usize| a.get(i).and_then(|x| x.as_u64()).unwrap_or(0) as u32;
+        DEVICE.with(|d| d.set(Some((n(0), n(1), n(2)))));
+        println!("(the result carries the device numbers {:?})", a);
+    }
     match check_one_pre(&scratch.path, 0, writer_code, len, pat, other, pre) {
         Some((kind, detail)) => {
             println!("now      : {} — {}", kind, detail);
